@@ -25,7 +25,7 @@ def replay_harness(ctx, casefile, toks):
     return 1, "no replay for this kind"
 
 
-OPN = {1: 3, 10: 3, 2: 2, 3: 2, 5: 2, 4: 5, 6: 3, 8: 4, 9: 1}
+OPN = {1: 3, 10: 3, 2: 2, 3: 2, 5: 2, 4: 5, 6: 3, 8: 4, 9: 1, 11: 3}
 ST = {0: "runnable?", 1: "waiting-for-direct", 2: "in-OpenStream(conn %d)", 3: "in-dialPeer", 4: "OK(conn %d)", 5: "ERR(%d)"}
 ERR = {1: "ErrNoConn", 2: "ErrLimitedConn", 3: "ctx", 4: "open-failed", 5: "ErrNoAddresses", 6: "ErrNoGoodAddresses",
        7: "ErrAllDialsFailed", 8: "max-dial-attempts"}
@@ -42,15 +42,19 @@ def parse_swarm(t):
                 break
             op = t[i:i + n]
             i += n
-            nw, key, cn, k = t[i:i + 4]
+            nw, key, cn, m = t[i:i + 4]
             i += 4
-            ths = [(t[i + 2 * j], t[i + 2 * j + 1]) for j in range(k)]
-            i += 2 * k
+            cf = t[i:i + m]
+            i += m
+            k = t[i]
+            i += 1
+            ths = [(t[i + 3 * j], t[i + 3 * j + 1], t[i + 3 * j + 2]) for j in range(k)]
+            i += 3 * k
             d = t[i]
             i += 1
             dl = [(t[i + 2 * j], t[i + 2 * j + 1]) for j in range(d)]
             i += 2 * d
-            steps.append((op, dict(nw=nw, key=key, cn=cn, calls=ths, dials=dl)))
+            steps.append((op, dict(nw=nw, key=key, cn=cn, conns=cf, calls=ths, dials=dl)))
     except IndexError:
         pass
     return steps
@@ -74,6 +78,8 @@ def op_str(op):
         return "peer addrs := %s" % ["%d:%s" % (a // 4, {0: "direct", 1: "relay", 2: "notransport"}.get(a % 4, "?")) for a in op[2:]]
     if c == 8:
         return "dial on addr %d returns %s" % (op[1], ("conn(limited=%d)" % op[3]) if op[2] else "error")
+    if c == 11:
+        return "Conn.NewStream on conn %d (allow_limited=%d)" % (op[1], op[2])
     if c == 9:
         return "advance DialPeerTimeout"
     return str(op)
@@ -89,8 +95,9 @@ def st_str(st):
 def describe(t):
     if t and t[0] == 0:
         return {"kind": "swarm scenario", "DialAttempts": t[1],
-                "steps": ["%s -> waiters=%d connectedness=%s calls=[%s] dials=%s" % (
+                "steps": ["%s -> waiters=%d connectedness=%s conns=[%s] calls=[%s] dials=%s" % (
                     op_str(op), ob["nw"], {0: "NotConnected", 1: "Connected", 2: "Limited"}.get(ob["cn"], ob["cn"]),
+                    ",".join(("L" if f & 1 else "-") + ("P" if f & 2 else "-") + ("u" if f & 4 else "x") for f in ob["conns"]),
                     ", ".join(st_str(s) for s in ob["calls"]), ob["dials"]) for op, ob in parse_swarm(t)][:40]}
     return {"raw": t[:120]}
 
